@@ -9,7 +9,7 @@
    shown is therefore that nothing a bundle answers depends on the root other
    than as a prefix, nor on anything but the document. *)
 From Slug Require Import Base.Str Base.PathAlg Base.PathLemmas Addr.Resolve Addr.ResolveProofs
-  Addr.Url Addr.Parse Bundle.Lookup Bundle.LookupProofs.
+  Addr.Url Addr.Parse Bundle.Lookup Bundle.LookupProofs Bundle.BestKey.
 
 (* the same packages, metadata, registry packages, versions, source addresses and
    deprecation notes, whichever directory the manifest is opened in; and it opens
@@ -63,6 +63,19 @@ Theorem C09_reverse_choice_is_deterministic :
     forall c c', In c cands -> In c' cands -> rpkg_string c = rpkg_string c'.
 Proof. exact reverse_choice_deterministic. Qed.
 Print Assumptions C09_reverse_choice_is_deterministic.
+
+(* the reverse lookup walks a Go map from package to directory in no fixed order; its choice -
+   the minimum of a strict total order on printed addresses - and so its whole answer is the
+   same for every order (before the repair fc9a62f equally short aliases were a coin toss) *)
+Theorem C09_reverse_lookup_visiting_order_irrelevant :
+  forall b b' path, b_root b = b_root b' -> Permutation.Permutation (b_dirs b) (b_dirs b') ->
+    match source_for_local_path b path, source_for_local_path b' path with
+    | Some (d, sub, cs), Some (d', sub', cs') => d = d' /\ sub = sub' /\ Permutation.Permutation cs cs'
+    | None, None => True
+    | _, _ => False
+    end.
+Proof. exact reverse_lookup_order_irrelevant. Qed.
+Print Assumptions C09_reverse_lookup_visiting_order_irrelevant.
 
 (* the versions of a registry entry form a JSON object, which Go decodes into a map
    and visits in no particular order: any two visiting orders of the same members
